@@ -529,6 +529,39 @@ Proof.
     apply mk_infos_recs. apply append_all_length.
 Qed.
 
+(** placement depends on lengths only *)
+Lemma place_spec rs : forall w,
+  snd (append_all w rs) = fst (place (w_segsize w) (w_id w) (blen (w_act w)) (map (fun r => blen (snd r)) rs)) /\
+  (let w' := fst (append_all w rs) in
+   (w_id w', blen (w_act w')) = snd (place (w_segsize w) (w_id w) (blen (w_act w)) (map (fun r => blen (snd r)) rs))
+   /\ w_segsize w' = w_segsize w).
+Proof.
+  induction rs as [|[ty p] rs IH]; intro w; [cbn; auto|].
+  cbn [append_all map place snd]. unfold append1, ensure_capacity.
+  assert (He : blen (enc_record ty p) = blen p + 9).
+  { change (enc_record ty p) with (enc (ty, p)). rewrite blen_enc. reflexivity. }
+  destruct (blen (w_act w) + (blen p + 9) <=? w_segsize w) eqn:Ec.
+  - match goal with |- context [append_all ?x rs] => set (w1 := x) end.
+    specialize (IH w1).
+    assert (Hl : blen (w_act w1) = blen (w_act w) + (blen p + 9)) by (unfold w1; cbn [w_act]; now rewrite blen_app, He).
+    assert (Hs : w_segsize w1 = w_segsize w) by reflexivity.
+    assert (Hi : w_id w1 = w_id w) by reflexivity.
+    rewrite Hs, Hi, Hl in IH. clearbody w1.
+    destruct (append_all w1 rs) as [w2 is].
+    destruct (place (w_segsize w) (w_id w) (blen (w_act w) + (blen p + 9)) (map (fun r => blen (snd r)) rs)) as [is' fin].
+    cbn [fst snd] in *. destruct IH as [H1 [H2 H3]]. subst. auto.
+  - match goal with |- context [append_all ?x rs] => set (w1 := x) end.
+    specialize (IH w1).
+    assert (Hl : blen (w_act w1) = 0 + (blen p + 9)) by (unfold w1; cbn [w_act rotate app]; now rewrite He).
+    assert (Hs : w_segsize w1 = w_segsize w) by reflexivity.
+    assert (Hi : w_id w1 = w_id w + 1) by reflexivity.
+    rewrite Hs, Hi, Hl in IH. clearbody w1.
+    destruct (append_all w1 rs) as [w2 is].
+    destruct (place (w_segsize w) (w_id w + 1) (0 + (blen p + 9)) (map (fun r => blen (snd r)) rs)) as [is' fin].
+    cbn [fst snd] in *. destruct IH as [H1 [H2 H3]]. subst.
+    cbn [w_id w_act rotate]. rewrite blen_nil. auto.
+Qed.
+
 Lemma wal_example :
   let rs := [(x00, [x61; x62]); (x01, [x63])] in
   Forall rec_ok rs /\
